@@ -8,6 +8,11 @@ HOOK_COMMITS = ["204cfe3", "2edc694", "e1d8638"]
 
 # id -> (category, technique, level text, level note, design ref)
 CHECKS = {
+ "C11": ("exploration",
+         "on-line invariant monitor hooked into a recording Directory wrapper (directory read back, decoded and CRC-checked after every snapshot persist and every remove; closer pairing; /proc/self/fd; reopen; second-writer refusal) under merge-happy runs with jitter, plus a lock hand-off stress",
+         "During real merge-happy runs with retention 1..3 the monitor evaluates, at every boundary after a snapshot persist or a remove and with no operation half-way, that enough loadable snapshots with all their segment files exist and that a removed segment does not belong to the live root; at the end every Load closer must have been closed exactly once, no descriptor under the directory may be open, the directory must reopen at once with the right content and a second writer must have been refused harmlessly. Held on the runs observed; the lock hand-off race is a listed finding.",
+         "Trusts: the recording wrapper (operations serialised against the read-back only), the harness' decoder use (real ReadFrom + CRC).",
+         "DESIGN.md §4 C11"),
  "C02": ("fault_enumeration",
          "offline checker over recorded directory-operation traces of real runs: ordering facts at every acknowledgement, and every crash point (boundary between recorded operations) materialised as a directory image and opened by the real OpenReader/OpenWriter in a child process, judged against the abstract index",
          "Real writers (safe mode, unsafe mode with persisted-callbacks, merge-happy / in-memory-merge / retention 1..3) run generated histories on a real directory behind a recording wrapper with seeded jitter at every seam; for each trace all operation boundaries are enumerated and each distinct image is recovered in a child: the content must be the abstract index after a batch between the last acknowledged and the last started one. Exhaustive over the boundaries of each recorded trace; interleavings sampled.",
